@@ -51,8 +51,12 @@ class DataContainerBase(FileIOMixin):
     def _add_error_object(self, name, error_object, **additional_error_dict_keys):
         """create a new entry <name> under self._error_dicts,
         with keys err=<ErrorObject> and arbitrary additional keys"""
-        if error_object.error.shape[0] != self.size:
-            raise ValueError(f"Error must have size {self.size} but" f"received error with size {error_object.error.shape[0]}")
+        _error_size = error_object.error.shape[0]
+        if error_object.relative and np.ndim(getattr(error_object, "error_rel", None)) == 1:
+            # the size that was declared, not the size after broadcasting against the reference values
+            _error_size = np.shape(error_object.error_rel)[0]
+        if _error_size != self.size:
+            raise ValueError(f"Error must have size {self.size} but" f"received error with size {_error_size}")
         _name = name
         if _name is not None and _name in self._error_dicts:
             raise ValueError(
